@@ -21,7 +21,7 @@ CHECKS = {
             "Trusted: model_diff; purge cut-off observed through will_apply. The actor/RPC repair path is exercised by C01, not here.",
             "DESIGN.md section 10 C05"),
     "C08": ("E0", "exploration",
-            "Hour-scale discrete-event simulation of 2-4 real OrSWotSet<2>+HLC replicas (direct source + pull-repair source, clock skew, duplicate/lost direct messages) executed twice per scenario - with and without its purge events - and compared (differential), plus local purge facts at every purge and absolute last-writer-wins.",
+            "Hour-scale discrete-event simulation of 2-4 real OrSWotSet<2>+HLC replicas (direct source + pull-repair source, clock skew, duplicate/lost direct messages) executed twice per scenario - with and without its purge events - and compared (differential), plus local purge facts at every purge (re-probed after every later event on the replica) and absolute last-writer-wins; one case in six is a 'straggler' history (one origin's stamps out of order around the purge of its early delete).",
             "Trusted: the set-level restatement of the actor's gating (will_apply filter, timestamp-sorted batches, docs fetched at apply time). Timely histories only, enforced and re-validated.",
             "DESIGN.md section 10 C08"),
     "C09": ("E0", "exploration",
@@ -45,7 +45,7 @@ CHECKS = {
             "Trusted: the required-count table in DESIGN.md. thread_rng replaced by the seeded hook PRNG; Instant by tokio virtual time.",
             "DESIGN.md section 10 C15"),
     "C16": ("E1", "exploration",
-            "The real datacake-node watch_membership_changes fed seeded snapshot sequences; subscribers from the real DatacakeHandle attach at seeded moments and read with seeded delays, folding joined/left; at quiescence each must hold exactly the live membership, and every departure must have been reported in `left` with the old address. Late/slow-subscriber losses are recorded known findings. One case in 127 is a real cluster (public API only, real gossip layer over the simulated network, long link holds, crashes, restarts, address moves) whose per-node subscriber must add up to the membership layer's own view at quiescence.",
+            "The real datacake-node watch_membership_changes fed seeded snapshot sequences; subscribers from the real DatacakeHandle attach at seeded moments and read with seeded delays, folding joined/left; at quiescence each must hold exactly the live membership, and every departure must have been reported in `left` with the old address. Late/slow-subscriber losses are recorded known findings. One case in 127 is a real cluster (public API only, real gossip layer over the simulated network, long link holds, crashes, restarts, address moves) whose per-node subscriber must add up to the membership layer's own view at quiescence, and whose layers must describe exactly the running nodes - also while some nodes (up to all but one) are gone until the faults stop.",
             "chitchat is a stub in the single-node cases (harness-supplied snapshots through the same watch-channel type); in the real-cluster arm it is the vendored fork with replay patches only.",
             "DESIGN.md section 10 C16"),
     "C17": ("E1", "exploration",
@@ -57,7 +57,7 @@ CHECKS = {
             "One OS thread (await-point interleavings). The handle/poller call sites are re-issued by the harness with the same statements.",
             "DESIGN.md section 10 C18"),
     "C01": ("E2", "exploration",
-            "2-5 complete nodes (real store, RPC stack over simulated TCP/HTTP2, clock, selector, membership watcher) under seeded operations and faults (holds, crash/restart, lagging/partial membership views, replayed replication messages, clock skew/jumps, storage failures/latency, cooperative delays inside repair); then constructed quiescence and the real repair path for every ordered pair in seeded order; every node's store must equal the last-writer-wins documents. One case in 8 builds every node with the public API alone (DatacakeNodeBuilder::connect + store extension) and lets the real gossip layer (vendored, virtual time, seeded) decide membership under long link holds, crashes, restarts and address moves. Further families: bursts of bulk calls with a partially failing bulk write or a never-held delete at the tail, a node joining a cluster whose stores hold more documents than one poll fetches, and a single-node arm that requires a new change timestamp whenever the advertised keyspace state changed.",
+            "2-5 complete nodes (real store, RPC stack over simulated TCP/HTTP2, clock, selector, membership watcher) under seeded operations and faults (holds, crash/restart, lagging/partial membership views, replayed replication messages, clock skew/jumps, storage failures/latency, cooperative delays inside repair); then constructed quiescence and the real repair path for every ordered pair in seeded order; every node's store must equal the last-writer-wins documents. One case in 8 builds every node with the public API alone (DatacakeNodeBuilder::connect + store extension) and lets the real gossip layer (vendored, virtual time, seeded) decide membership under long link holds, crashes, restarts and address moves. Further families: bursts of bulk calls with a partially failing bulk write or a never-held delete at the tail, a node joining a cluster whose stores hold more documents than one poll fetches, and a single-node arm that requires a new change timestamp whenever the advertised keyspace state changed and fetches the state (GetState) at every scheduling hop around a write: a reply carrying the finally advertised timestamp must hold the final state. Real-membership crashes may last until the faults stop (also of every node but one); such departures are judged before the nodes come back.",
             "chitchat is a stub (harness membership views) except in the real-membership family; recoverable network faults only; SimStorage; all operations within one forgiveness period (validated).",
             "DESIGN.md section 10 C01"),
     "C06": ("E2", "exploration",
